@@ -1090,6 +1090,10 @@ func (g *GoFakeS3) ensureBucketExists(bucket string) error {
 		return err
 	}
 	if !exists && g.autoBucket {
+		// Buckets created on the fly obey the same naming rules as CreateBucket:
+		if err := ValidateBucketName(bucket); err != nil {
+			return ResourceError(ErrNoSuchBucket, bucket)
+		}
 		if err := g.storage.CreateBucket(bucket); err != nil {
 			g.log.Print(LogErr, "autobucket create failed:", err)
 			return ResourceError(ErrNoSuchBucket, bucket)
